@@ -43,7 +43,12 @@ def filter_yaml(f, ind):
 def proc_yaml(p, limq, status, seth, extra):
     k, kind = p["key"], p["kind"]
     s = "  %s:\n" % k
-    if k in extra["StRange"]:
+    if k in extra["RCache"]:
+        s += "    processor: ReadCache\n    parameters:\n      - key: caching_key_parts\n        value: [\"$.request.headers.%s\"]\n" % extra["RCache"][k]
+    elif k in extra["WCache"]:
+        s += ("    processor: WriteCache\n    parameters:\n      - key: caching_key_parts\n        value: [\"$.request.headers.%s\"]\n"
+              "      - key: ttl_seconds\n        value: %d\n" % (extra["WCache"][k], extra["CacheTtl"]))
+    elif k in extra["StRange"]:
         s += "    processor: Filter\n    parameters:\n      - key: status_code_range\n        value: \"%d-%d\"\n" % tuple(extra["StRange"][k])
     elif k in extra["RetryA"]:
         s += ("    processor: Retry\n    parameters:\n      - key: attempts\n        value: %d\n      - key: cooldown_between_attempts_seconds\n        value: 0\n"
@@ -103,27 +108,47 @@ def rand_filter(rng, path, rich, status_ok):
     return f
 
 
-def rand_config(rng, n):
+# directed families: interactions the random draw meets too rarely (each is still a seeded random member of its family)
+FORCED = {
+    # a Limiter on a concurrency quota whose own filter does not cover the flow (G2), in front of a cache: a cached answer must give
+    # the slot back although no releasing system flow will ever run for it
+    "g2cache": {"quotas": [("conc", ["y"])], "plan": [("limcache", ["x"])], "cache": True},
+    # two flows with a Retry processor each on the urls of one sequence, a Limiter in front of one of them
+    "tworetry": {"quotas": [("fixed", ["*"])], "plan": [("limretry", ["x"]), ("retry", ["*"])], "cache": False},
+    # an answering Limiter flow next to a caching flow (G7), and a set rule ahead of both
+    "limcachetwo": {"quotas": [("fixed", ["*"])], "plan": [("lim", ["x"]), ("cache", ["*"]), ("set", ["x", "*"])], "cache": True},
+}
+
+
+def rand_config(rng, n, force=None):
     """1-3 user flows and 1-2 quotas (fixed window / concurrency) over url patterns with path parameters and wildcards, method / header /
     query-parameter (and, in configurations without answering processors, status-code) constraints; flows built from templates: Limiter
     with answering above-limit branch, conditional answer, plain processors, random graphs."""
     quotas = []
     # Configurations with status-code filters have no answering processor: an early response is selected for again as a response
     # that does not exist yet and a status-code filter then dereferences nil (observation G4, DESIGN.md section 14)
-    with_status = rng.random() < 0.25
-    for i in range(rng.randint(1, 2)):
+    fc = FORCED.get(force)
+    with_status = rng.random() < 0.25 and not fc
+    for i in range(rng.randint(1, 2) if not fc else len(fc["quotas"])):
         # at most one concurrency quota per configuration (ConcurrencyP judges one Request per transaction)
         kind = rng.choice(["fixed", "conc"]) if not any(q["kind"] == "conc" for q in quotas) else "fixed"
+        if fc:
+            kind = fc["quotas"][i][0]
         # a concurrency quota mostly covers the whole host; otherwise (observation G2) a Limiter that refers to it from a flow outside the
         # quota's filter takes slots that no response releases - the releasing system flow hangs on the quota's filter
         if kind == "conc":
             q = rand_filter(rng, ["*"] if rng.random() < 0.65 else rng.choice(PATHS), False, False)
         else:
             q = rand_filter(rng, rng.choice(PATHS), True, False)
+        if fc:
+            q = rand_filter(rng, fc["quotas"][i][1], False, False)
         q.update({"id": "q%d%d" % (n, i), "kind": kind, "max": rng.randint(1, 3), "w": rng.choice([4, 6, 8])})
         quotas.append(q)
     flows, limq, status, st, seth = [], {}, {}, 430, {}
-    extra = {"StRange": {}, "RetryA": {}}
+    extra = {"StRange": {}, "RetryA": {}, "RCache": {}, "WCache": {}, "CacheTtl": rng.choice([2, 3]), "CacheJoin": []}
+    # one caching flow at most (XCacheP is the specification of one cache); such configurations carry no response-side set rules
+    # (WriteCache stores the response as edited by the processors that ran before it)
+    with_cache = (not with_status and rng.random() < 0.3) if not fc else fc["cache"]
 
     def retry_side(k):
         """response side  Filter(status 500-599) -hit-> Retry -retry/failed-> end  (the documented way to say which statuses are retried)"""
@@ -134,6 +159,8 @@ def rand_config(rng, n):
                  fg.conn(fg.P(k("Y"), "retry"), fg.S("end")), fg.conn(fg.P(k("Y"), "failed"), fg.S("end"))])
 
     def rset(key, side):
+        if side == "res" and with_cache:
+            return
         # a TransformAPICall with one "set" rule on a request / response header; two names, so that rules of different processors
         # and flows meet on one header
         seth[key] = [side, rng.choice(["x-s1", "x-s2"] if side == "req" else ["x-r1", "x-r2"]), rng.choice(["a", "b", "c"])]
@@ -148,6 +175,10 @@ def rand_config(rng, n):
         if tpl in ("retry", "limretry") and rng.random() < 0.5:
             # a second flow with its own Retry processor on the same url or on the whole host: both see the same sequences
             plan.append(("retry", rng.choice([path, ["*"]])))
+    if fc:
+        plan = list(fc["plan"])
+    elif with_cache:
+        plan[rng.randrange(len(plan))] = (rng.choice(["cache", "limcache", "cachelim"]), rng.choice([["*"], ["x"], ["x", "*"], ["{p}"]]))
     for i, (tpl, path) in enumerate(plan[:4]):
         name = "F%d%d" % (n, i)
         k = lambda s, name=name: "%s%s" % (s, name)
@@ -165,6 +196,26 @@ def rand_config(rng, n):
                 sides = {d for d, conns in (("req", req), ("res", res)) for c in conns if key in (c["f"]["n"], c["t"]["n"])}
                 if kind == "Plain" and len(sides) == 1 and rng.random() < 0.7:
                     rset(key, sides.pop())
+        elif tpl in ("cache", "limcache", "cachelim"):
+            # ReadCache on the request side (alone, behind or in front of a Limiter with an answering above-limit branch), WriteCache
+            # on the response side; the key is one request header
+            extra["RCache"][k("A")] = extra["WCache"][k("W")] = "xck"
+            extra["CacheJoin"].append([name, k("A"), k("W")])
+            procs = [(k("A"), "RCache"), (k("W"), "WCache")]
+            res = [fg.conn(fg.P(k("A"), "cache_hit"), fg.S("end")), fg.conn(fg.S("start"), fg.P(k("W"))), fg.conn(fg.P(k("W")), fg.S("end"))]
+            if tpl == "cache":
+                req = [fg.conn(fg.S("start"), fg.P(k("A"))), fg.conn(fg.P(k("A"), "cache_miss"), fg.S("end"))]
+            else:
+                q = rng.choice(quotas)["id"]
+                procs += [(k("L"), "Lim"), (k("G"), "Gen")]
+                limq[k("L")] = q
+                res.append(fg.conn(fg.P(k("G")), fg.S("end")))
+                if tpl == "limcache":
+                    req = [fg.conn(fg.S("start"), fg.P(k("L"))), fg.conn(fg.P(k("L"), "above_limit"), fg.P(k("G"))),
+                           fg.conn(fg.P(k("L"), "below_limit"), fg.P(k("A"))), fg.conn(fg.P(k("A"), "cache_miss"), fg.S("end"))]
+                else:
+                    req = [fg.conn(fg.S("start"), fg.P(k("A"))), fg.conn(fg.P(k("A"), "cache_miss"), fg.P(k("L"))),
+                           fg.conn(fg.P(k("L"), "above_limit"), fg.P(k("G"))), fg.conn(fg.P(k("L"), "below_limit"), fg.S("end"))]
         elif tpl == "retry":
             # a plain request side, retries of failed responses on the response side
             rp, rc = retry_side(k)
@@ -229,7 +280,7 @@ def rand_config(rng, n):
                 st += 1
                 status[key] = st
         fl = fg.flow(name, procs, req, res, url="")
-        fl.update(rand_filter(rng, path, True, with_status))
+        fl.update(rand_filter(rng, path, not fc, with_status))
         fl["url"] = render(fl["pat"])
         flows.append(fl)
     cfg = {"flows": flows,
@@ -237,7 +288,9 @@ def rand_config(rng, n):
                       for q in quotas]}
     model = {"cfg": cfg, "QKind": {q["id"]: q["kind"] for q in quotas}, "QMax": {q["id"]: q["max"] for q in quotas},
              "QW": {q["id"]: q["w"] for q in quotas}, "LimQ": limq or {"-": "-none-"}, "GenStatus": status or {"-": 0},
-             "SetH": seth or {"-": ["-", "-", "-"]}, "StRange": extra["StRange"] or {"-": [0, 0]}, "RetryA": extra["RetryA"] or {"-": 0}}
+             "SetH": seth or {"-": ["-", "-", "-"]}, "StRange": extra["StRange"] or {"-": [0, 0]}, "RetryA": extra["RetryA"] or {"-": 0},
+             "RCache": extra["RCache"] or {"-": "-"}, "WCache": extra["WCache"] or {"-": "-"}, "CacheTtl": extra["CacheTtl"],
+             "CacheJoin": extra["CacheJoin"]}
     files = {"quotas/quotas.yaml": quota_yaml(quotas)}
     for fl in flows:
         files["flows/%s.yaml" % fl["name"]] = flow_yaml(fl, limq, status, seth, extra)
@@ -288,6 +341,7 @@ def rand_history(rng, model, conds, n, hid):
     cfg = model["cfg"]
     rich = any(f["m"] or f["h"] or f["q"] for f in cfg["flows"] + cfg["quotas"])
     retries = "-" not in model["RetryA"]
+    caching = "-" not in model["RCache"]
     now = rng.randint(2, 9)
     h = [{"ev": "reset", "now": now}]
     open_tx, k = [], 0
@@ -303,6 +357,8 @@ def rand_history(rng, model, conds, n, hid):
             method, url, qry, hdr = rng.choice(kinds) if rng.random() < 0.85 else rand_tx(rng, cfg, rich)
             hdr = dict(hdr)
             hdr.update({"x-%s" % c.lower(): "1" for c in conds if rng.random() < 0.4})
+            if caching and rng.random() < 0.85:
+                hdr["xck"] = rng.choice(["a", "a", "b"])
             h.append({"ev": "req", "id": tid, "method": method, "url": url, "qry": qry, "hdr": hdr})
             open_tx.append((tid, method, url))
         elif x < 0.92:
@@ -312,6 +368,9 @@ def rand_history(rng, model, conds, n, hid):
                 # the provider keeps failing for a while: statuses of its answers to the re-sent requests (used as far as the engine asks)
                 ev["status"] = rng.choice([200, 404, 500, 503, 503])
                 ev["chain"] = [rng.choice([503, 503, 500, 200, 404]) for _ in range(rng.choice([0, 1, 2, 3, 4]))]
+            if caching:
+                ev["status"] = rng.choice([200, 200, 200, 201, 404, 500])
+                ev["body"], ev["hdr"] = rng.choice(["b1", "b2"]), {"x-r": rng.choice(["1", "2"])}
             h.append(ev)
         else:
             tid, method, url = open_tx.pop(rng.randrange(len(open_tx)))
@@ -335,7 +394,8 @@ def spec_dir(ctx):
             for f in os.listdir(os.path.join(VERIF, "specs", sub)):
                 shutil.copy(os.path.join(VERIF, "specs", sub, f), d)
         for rel in ("c04_flow_graph/FlowGraphP.tla", "c01_fixed_window/FixedWindowP.tla", "c02_concurrency/ConcurrencyP.tla",
-                    "c03_filter_select/FilterP.tla", "c07_actions/ActionsP.tla", "c17_retry/RetryP.tla"):
+                    "c03_filter_select/FilterP.tla", "c07_actions/ActionsP.tla", "c17_retry/RetryP.tla",
+                    "x02_cache_transform/XCacheP.tla"):
             shutil.copy(os.path.join(VERIF, "specs", rel), d)
     return d
 
@@ -400,10 +460,20 @@ def run(ctx):
     ctx.assumptions += ["one tick = 500 ms; fixed windows 2-4 s; no concurrency-slot expiry within a history",
                         "sequential handling of overlapping transactions (concurrency is C18's subject)", "at most one concurrency quota per configuration",
                         "status-code filters only in configurations without answering processors (observation G4)"]
-    ncfg, nh, hl = (24, 10, 24) if not T else (160, 24, 40)
+    ncfg, nh, hl = (20, 9, 24) if not T else (150, 24, 40)
+    # candidates: twice as many as needed (random graphs are often refused by the loader: C05's subject), loaded once without histories
+    cands = [rand_config(ctx.rng, n) for n in range(2 * ncfg)]
+    forced = sorted(FORCED) * (1 if not T else 4)
+    cands += [rand_config(ctx.rng, 2 * ncfg + i, force=f) for i, f in enumerate(forced)]
+    loaded = execute(ctx, binary, [{"config": m, "files": f, "histories": []} for m, f, c in cands], "load")
+    ok = [i for i, tr in enumerate(loaded) if not any(e.get("ev") == "loadfail" for e in tr)]
+    ctx.notes.append("%d of %d candidate configurations were refused by the loader" % (len(cands) - len(ok), len(cands)))
+    rnd = [cands[i] for i in ok if i < 2 * ncfg][:ncfg]
+    picked = rnd + [cands[i] for i in ok if i >= 2 * ncfg]
+    if len(picked) < ncfg // 2 or len(picked) - len(rnd) != len(forced):
+        raise Broken("only %d random and %d of %d directed configurations loaded" % (len(rnd), len(picked) - len(rnd), len(forced)))
     scripts = []
-    for n in range(ncfg):
-        model, files, conds = rand_config(ctx.rng, n)
+    for n, (model, files, conds) in enumerate(picked):
         hs = [rand_history(ctx.rng, model, conds, hl, "%d_%d" % (n, i)) for i in range(nh)]
         scripts.append({"config": model, "files": files, "histories": hs})
     first = execute(ctx, binary, scripts, "probe")
@@ -414,19 +484,17 @@ def run(ctx):
         cfg, rec = split_histories(tr)
         sc["histories"] = [fix_history(h, r) for h, r in zip(sc["histories"], rec)]
     traces = execute(ctx, binary, scripts, "rand")
-    keep = [i for i, t in enumerate(traces) if not any(e.get("ev") == "loadfail" for e in t)]
-    ctx.notes.append("%d of %d random configurations were rejected by the loader and skipped" % (len(traces) - len(keep), len(traces)))
-    traces, scripts = [traces[i] for i in keep], [scripts[i] for i in keep]
-    if len(traces) < 3:
-        raise Broken("only %d configurations loaded" % len(traces))
+    if any(e.get("ev") == "loadfail" for t in traces for e in t):
+        raise Broken("a configuration that loaded once was refused later")
     ctx.sample({"kind": "whole-engine history", "events": [slim(e) for e in split_histories(traces[0])[1][0][:6]]})
 
     def one(it):
         i, ev = it
         return validate(ctx, ev, "g%d" % i)
-    res = parallel(one, list(enumerate(traces)), n=6)
+    res = parallel(one, list(enumerate(traces)), n=8)
     ctx.cov["states"] = max(1, ctx.cov["states"])
-    stats = {"tx": 0, "refused": 0, "early": 0, "multi": 0, "resent": 0, "retry_failed": 0, "g6_retry_on_early_response": 0}
+    stats = {"tx": 0, "refused": 0, "early": 0, "multi": 0, "resent": 0, "retry_failed": 0, "cache_hit": 0,
+             "g6_retry_on_early_response": 0, "g7_answer_lost_to_writecache_error": 0}
     for (acc, rejected, rounds), ev, sc in zip(res, traces, scripts):
         cfg, hs = split_histories(ev)
         ctx.cov["traces_validated_against_impl"] += acc
@@ -441,6 +509,8 @@ def run(ctx):
             stats["multi"] += sum(1 for e in txs if len({s["flow"] for s in e.get("seq", []) if not s.get("sid")}) > 1)
             stats["resent"] += sum(1 for e in txs if e.get("resent") and e["dir"] == "req")
             stats["retry_failed"] += sum(1 for e in txs for s in e.get("seq", []) if s.get("out") == "failed")
+            stats["cache_hit"] += sum(1 for e in txs for s in e.get("seq", []) if s.get("out") == "cache_hit")
+            stats["g7_answer_lost_to_writecache_error"] += sum(1 for e in txs if e.get("errclass") == "response-not-found")
             stats["g6_retry_on_early_response"] += sum(1 for e in txs if e["dir"] == "req" for s in e.get("seq", []) if s.get("out") in ("retry", "failed"))
             if refused and early:
                 ctx.cov["distinct_nontrivial"] += 1
@@ -458,7 +528,7 @@ def run(ctx):
     ctx.cov["states"] = max(1, ctx.cov["traces_validated_against_impl"])
     ctx.cov["gateway_stats"] = stats
     ctx.notes.append("states/transitions here are trace-validation counts (histories / transactions), no exhaustive run belongs to the composition itself")
-    if min(v for k, v in stats.items() if not k.startswith("g6")) == 0:
+    if min(v for k, v in stats.items() if not k.startswith("g")) == 0:
         raise Broken("vacuous run: %s" % stats)
 
 
